@@ -15,7 +15,7 @@ VERIF_SCHEDLOG  path of a log file.  One line per event, appended with a single 
                     parse <pid> <fname>      Linter.parse_rendered is entered for a file with at least one rendered
                                              variant, i.e. the file is about to be lexed and parsed (C34: must never
                                              be seen for a skipped file); "parse0" when there is nothing to parse
-                    persist <pid> <path>     LintedFile.persist_tree is about to write a file
+                    persist <pid> <path>     LintedFile._safe_create_replace_file is about to (re)write a file
 
 The wrappers call the original functions with unchanged arguments and return their results unchanged.
 """
@@ -83,13 +83,13 @@ if os.environ.get("VERIF_DELAYS") or os.environ.get("VERIF_SCHEDLOG"):
 
     def _patch_linted_file(mod):
         LintedFile = mod.LintedFile
-        orig = LintedFile.persist_tree
+        orig = LintedFile.__dict__["_safe_create_replace_file"].__func__  # staticmethod: the one place that writes
 
-        def persist_tree(self, *a, **k):
-            _log("persist", getattr(self, "path", "?"))
-            return orig(self, *a, **k)
+        def _safe_create_replace_file(input_path, output_path, *a, **k):
+            _log("persist", output_path)
+            return orig(input_path, output_path, *a, **k)
 
-        LintedFile.persist_tree = persist_tree
+        LintedFile._safe_create_replace_file = staticmethod(_safe_create_replace_file)
 
     _PATCHES = {
         "sqlfluff.core.linter.linter": _patch_linter,
